@@ -947,4 +947,86 @@ theorem likeKept_repaired' (c : Cont) (T : List Int) (hs : T.Pairwise (· < ·))
   · refine hZs.imp ?_
     intro a b hab; simp only [Function.comp, decide_eq_true_eq]; omega
 
+/-! ### long channels described by a rule: windows of the answers -/
+
+theorem take_range'_min (s n i : Nat) : (List.range' s n).take i = List.range' s (min i n) := by
+  by_cases h : n ≤ i
+  · rw [List.take_range'_of_length_le h, Nat.min_eq_right h]
+  · rw [List.take_range'_of_length_ge (by omega), Nat.min_eq_left (by omega)]
+
+/-- Block `i` of a channel that follows the rule `v`. -/
+theorem rule_block (v : Nat → Rat) (n k i : Nat) (h : (i + 1) * k ≤ n) :
+    (((List.range n).map v).drop (i * k)).take k = (List.range' (i * k) k).map v := by
+  have h' : i * k + k ≤ n := by rw [Nat.add_mul] at h; omega
+  rw [List.range_eq_range', ← List.map_drop, ← List.map_take, List.drop_range', take_range'_min]
+  congr 2
+  · omega
+  · omega
+
+/-- A slice `[i0 : i0 + cnt]` of the first `q ≤ n / k` downsampled samples (in the form the lemmas
+    `downBy_samples`, `to_cont_nonmult`, `to_cont_mult` give them) is the window computed from the rule. -/
+theorem window_of_blocks (f : List Rat → Rat) (start dt : Int) (n : Nat) (v : Nat → Rat) (k q i0 cnt : Nat)
+    (hq : q ≤ n / k) :
+    ((((List.range q).map fun (i : Nat) =>
+        ((contOf start dt n v).start + (i : Int) * ((k : Int) * (contOf start dt n v).dt)
+            + (((k : Int) - 1) * (contOf start dt n v).dt) / 2,
+          f (((contOf start dt n v).data.drop (i * k)).take k))).drop i0).take cnt)
+      = winOf (blockSample f start dt v k) q i0 cnt := by
+  rw [List.range_eq_range', ← List.map_drop, ← List.map_take, List.drop_range', take_range'_min]
+  unfold winOf
+  have e : 0 + i0 * 1 = i0 := by omega
+  rw [e]
+  apply List.map_congr_left
+  intro i hi
+  rw [List.mem_range'_1] at hi
+  have hb : (i + 1) * k ≤ n := by
+    have h1 := Nat.div_mul_le_self n k
+    have h2 : (i + 1) * k ≤ n / k * k := Nat.mul_le_mul_right k (by omega)
+    omega
+  show (_, f ((((List.range n).map v).drop (i * k)).take k)) = _
+  rw [rule_block v n k i hb]
+  rfl
+
+theorem contOf_length (start dt : Int) (n : Nat) (v : Nat → Rat) : (contOf start dt n v).data.length = n := by
+  simp [contOf]
+
+theorem byWindow_eq (f : List Rat → Rat) (start dt : Int) (n : Nat) (v : Nat → Rat) (k i0 cnt : Nat)
+    (hdt : 0 < dt) (hk : 0 < k) :
+    ∃ r, downBy f (.cont (contOf start dt n v)) k = .ok r ∧ r.dt = dt * k ∧ r.samples.length = n / k ∧
+      byWindow f start dt n v k i0 cnt = (r.samples.drop i0).take cnt := by
+  obtain ⟨r, hr, hd, hs⟩ := downBy_samples f (contOf start dt n v) k hdt hk
+  rw [contOf_length] at hs
+  refine ⟨r, hr, hd, by rw [hs]; simp, ?_⟩
+  rw [hs, window_of_blocks f start dt n v k (n / k) i0 cnt (Nat.le_refl _)]
+  rfl
+
+theorem toWindow_eq (f : List Rat → Rat) (start dt : Int) (n : Nat) (v : Nat → Rat) (k i0 cnt : Nat) (m : Method)
+    (hdt : 0 < dt) (hk : 0 < k) (hn : k < n) :
+    ∃ out, downTo f (.cont (contOf start dt n v)) ((k : Int) * dt) (some m) (some true) = .ok out ∧
+      out.length = toCount n k ∧ toWindow f start dt n v k i0 cnt = (out.drop i0).take cnt := by
+  have hdt' : 0 < (contOf start dt n v).dt := hdt
+  have hl := contOf_length start dt n v
+  by_cases hnm : n % k = 0
+  · have h2 : 2 * k ≤ n := by
+      have h1 := Nat.div_add_mod n k
+      rw [hnm] at h1
+      have : 2 ≤ n / k := by
+        by_cases h : 2 ≤ n / k
+        · exact h
+        · have : n / k ≤ 1 := by omega
+          have := Nat.mul_le_mul_left k this
+          omega
+      have := Nat.mul_le_mul_left k this
+      omega
+    have h := to_cont_mult f (contOf start dt n v) k m hdt' hk (by rw [hl]; exact h2) (by rw [hl]; exact hnm)
+    rw [hl] at h
+    refine ⟨_, h, by simp [toCount, hnm], ?_⟩
+    rw [window_of_blocks f start dt n v k (n / k - 1) i0 cnt (Nat.sub_le _ _)]
+    simp [toWindow, toCount, hnm]
+  · have h := to_cont_nonmult f (contOf start dt n v) k m hdt' hk (by rw [hl]; omega) (by rw [hl]; exact hnm)
+    rw [hl] at h
+    refine ⟨_, h, by simp [toCount, hnm], ?_⟩
+    rw [window_of_blocks f start dt n v k (n / k) i0 cnt (Nat.le_refl _)]
+    simp [toWindow, toCount, hnm]
+
 end Verif.C04
